@@ -5,7 +5,7 @@ from harness import gen_seq
 from runner import Case, CaseSet
 
 ID = 'C05'
-OBLIGATIONS = ['Props/C05.v', 'Props/Tie/charge_tie.v', 'Props/Tie/recode_tie.v', 'Props/Tie/deltamax_tie.v']
+OBLIGATIONS = ['Props/C05.v', 'Props/Tie/charge_tie.v', 'Props/Tie/recode_tie.v', 'Props/Tie/deltamax_tie.v', 'Props/Tie/minipy_kappax_tie.v']
 RULE = ('inputs: +/-/0 patterns of length 5..n (quick: 320 sampled from n<=7; thorough: all, n<=8) with random spellings + random class '
         'sequences (N <= 40); each with 5 transforms: class-preserving respelling, Omega-class respelling, reversal, '
         'charge inversion, reversal+inversion; observables kappa, delta, delta-max, SCD, Omega on x and T(x); '
